@@ -31,7 +31,36 @@ def run(prog, tier):
     bragg(prog, chk, kev)
     structure_factor(prog, chk, pi)
     stored_volume(prog, chk, tier)
+    no_cached_state(prog, chk)
     return chk
+
+
+def no_cached_state(prog, chk):
+    """The formulas are decided per call: "for every crystal, Miller triple and energy" the result is the explicit sum, whatever was
+    computed before.  A function-static table (e.g. the per-element cache of the structure-factor routine made static) carries the
+    atomic factors of an earlier energy / reflection / flag set into later calls.  Decided: none of the crystal functions (and none
+    of the library functions they call) declares a static local."""
+    from xvlib.effects import lib_functions, call_graph, reachable
+    funcs = lib_functions(prog)
+    cg = call_graph(prog, funcs)
+    roots = ['Crystal_F_H_StructureFactor', 'Crystal_F_H_StructureFactor_Partial', 'Crystal_dSpacing', 'Crystal_UnitCellVolume', 'Bragg_angle',
+             'Q_scattering_amplitude', 'Atomic_Factors']
+    seen = set()
+    for r in roots:
+        if r in funcs:
+            seen |= set(reachable(cg, r)) | {r}
+    n = 0
+    for name in sorted(seen):
+        f = funcs.get(name)
+        if f is None or not f.get('body'):
+            continue
+        n += 1
+        statics = [x for x in walk(f['body']) if x.get('k') == 'var' and x.get('cls') == 'slocal']
+        chk.decide(not statics, 'no-cached-state', f['unit'], name, 'static locals', '%s:%d' % (f['rel'], statics[0]['ln'] if statics else f['ln']),
+                   '%s keeps %s in static storage: values computed for one call (energy, reflection, Debye factor, flags) are reused by later calls, so the '
+                   'result is no longer the explicit sum for the arguments given' % (name, [x.get('name') for x in statics]),
+                   why='no static locals')
+    chk.floor('functions reachable from the crystal API', n, 10)
 
 
 def stored_volume(prog, chk, tier):
